@@ -89,6 +89,15 @@ func genXML(t *tape.Tape, o GenOpts) *World {
 	fn := fieldNames("F", sh.NFields)
 	gn := fieldNames("G", sh.NItemFields)
 	useAttr := t.Bool("xml.attr")
+	rootAttrs := ""
+	if t.Chance("xml.ns", 1, 3) {
+		// namespace-prefixed elements (xpath addresses them by prefix)
+		rootAttrs = ` xmlns:p="uri://verif/p"`
+		for i := 2; i < len(fn); i++ {
+			fn[i] = "p:" + fn[i]
+		}
+		w.SetTag("xml.namespaces", "1")
+	}
 	m := Model{Fields: append([]string{}, fn...), IntField: fn[sh.IntIdx], Ctx: []string{"../hdr/h0"}}
 	if useAttr {
 		m.Fields = append(m.Fields, "@a0")
@@ -132,7 +141,7 @@ func genXML(t *tape.Tape, o GenOpts) *World {
 		sb.WriteString("</rec>")
 		return sb.String()
 	}
-	w.Prefix = "<root><hdr><h0>" + xmlEsc.Replace(Text(t, sh.Charset, 6)) + "</h0></hdr>"
+	w.Prefix = "<root" + rootAttrs + "><hdr><h0>" + xmlEsc.Replace(Text(t, sh.Charset, 6)) + "</h0></hdr>"
 	switch pretty {
 	case 1:
 		w.Sep = "\n  "
